@@ -24,16 +24,16 @@ def extra_obligations(index, tier):
     s = "".join(ast.unparse(index.func(key).node).split())
     d = "".join(ast.unparse(index.func("codebasin.preprocessor:DirectiveParser.define").node).split())
     out.append(("-D and #define parse the macro head with the same function (macro_definition)",
-                "parser.macro_definition()" in s and "self.macro_definition()" in d, "", key))
+                "parser.macro_definition()" in s and "self.macro_definition()" in d, "", key, "pattern"))
     out.append(("-D builds the macro with make_macro(identifier, args, expansion) like DefineNode",
                 "returnmake_macro(identifier,args,expansion)" in s and
                 "make_macro(self.identifier,self.args,self.value)" in "".join(ast.unparse(index.func("codebasin.preprocessor:DefineNode.evaluate_for_platform").node).split()),
-                "", key))
-    out.append(("-DNAME without a value defines NAME as 1", "NumericalConstant('Unknown',None,False,'1')" in s, "", key))
-    out.append(("-DNAME=value takes everything after the first = as the replacement", "parser.match_value(Operator,'=')" in s and "expansion=parser.tokens[parser.pos:]" in s, "", key))
+                "", key, "pattern"))
+    out.append(("-DNAME without a value defines NAME as 1", "NumericalConstant('Unknown',None,False,'1')" in s, "", key, "pattern"))
+    out.append(("-DNAME=value takes everything after the first = as the replacement", "parser.match_value(Operator,'=')" in s and "expansion=parser.tokens[parser.pos:]" in s, "", key, "pattern"))
     e = "".join(ast.unparse(index.func("codebasin.preprocessor:MacroExpander.overflow_check").node).split())
     out.append(("expansion has a depth backstop (termination)", "raiseMacroExpandOverflow" in e or "MacroExpandOverflow" in e, "",
-                "codebasin.preprocessor:MacroExpander.overflow_check"))
+                "codebasin.preprocessor:MacroExpander.overflow_check", "pattern"))
     return out
 
 
